@@ -201,8 +201,25 @@ def native_confirm(task, viol):
                 return True, 'native behaviour changes when only the stale field %s is changed to %d (rc %s -> %s)' % (
                     fld, alt, base['rc'], r2['rc'])
         return False, 'native behaviour independent of the stale field'
+    if task.opts.get('preempt_bound') and kind in ('memory', 'race', 'deadlock', 'hang', 'assert', 'uncaught_exception', 'terminate'):
+        # schedule-dependent counterexample, first the schedule itself: pause the preempted thread natively at the
+        # synchronisation point where llsym preempted it (the per-thread count may be off by a few mutex operations that
+        # only the native libstdc++ performs, so neighbouring counts are tried as well)
+        sched = (viol.get('extra') or {}).get('schedule') or []
+        if sched and len(sched[0]) >= 4 and sched[0][3] and sched[0][3][0] in ('L', 'U', 'S'):
+            skind, stid, scnt = sched[0][3]
+            for d in (0, 1, -1, 2, -2, 3, -3, 4, -4, 5, 6):
+                if scnt + d < 1:
+                    continue
+                nr = native_run(task.text, task.entry, viol['inputs'], timeout=15,
+                                env_extra={'VP_PAUSE': '%d:%s:%d:%d' % (stid, skind, scnt + d, 500)})
+                bad = nr['rc'] != 0 or not nr['done'] or nr['timeout'] or (kind == 'assert' and viol['msg'] in nr['asserts'])
+                if bad and not (kind == 'assert' and viol['msg'] not in nr['asserts'] and nr['rc'] == 0):
+                    return True, 'native replay of the schedule (thread %d paused for 500 ms at its %d-th %s) fails: %s rc=%s %s' % (
+                        stid, scnt + d, {'L': 'mutex acquisition', 'U': 'mutex release', 'S': 'thread start'}[skind],
+                        'timed out (hang)' if nr['timeout'] else '', nr['rc'], nr['stderr'][-300:].replace('\n', ' | '))
     if task.opts.get('preempt_bound') and kind in ('memory', 'race', 'deadlock', 'assert', 'uncaught_exception', 'terminate'):
-        # schedule-dependent counterexample: stress replay with sleep-induced preemptions at mutex releases
+        # stress replay with sleep-induced preemptions at mutex releases
         last = ''
         for seed in range(1, 41):
             nr = native_run(task.text, task.entry, viol['inputs'], timeout=20, env_extra={'VP_CHAOS': str(seed * 7919)})
@@ -246,8 +263,11 @@ def native_confirm(task, viol):
         task.native_judge(fx, st, 'ok')
     except Exception as e:
         return False, 'native judge failed: %r' % e
-    want = norm_key(task.tid, viol)
-    got = [norm_key(task.tid, v.to_json()) for v in fx.violations]
+    # labels that only the symbolic side can attach (how the path was found) are not part of what has to reproduce
+    def unl(v):
+        return dict(v, msg=re.sub(r' \[(path steered by|derived image taking).*$', '', v['msg']))
+    want = norm_key(task.tid, unl(viol))
+    got = [norm_key(task.tid, unl(v.to_json())) for v in fx.violations]
     if want in got:
         return True, 'native judge reproduces: ' + viol['msg']
     if nr['rc'] != 0:
